@@ -110,8 +110,18 @@ def evaluate__parenthesized_expression(self: XPathToken, context: ta.ContextType
 
             if any(x.symbol == '?' and not x for x in tokens):
                 func.check_arguments_number(len(tokens))
+                # the fixed arguments are evaluated now; the new function item gets its own
+                # argument list (placeholders of a partial function are filled in order)
+                values = iter([
+                    x if x.symbol == '?' and not x else
+                    ValueToken(self.parser, value=x.evaluate(context)) for x in tokens
+                ])
+                partial = func.label.endswith('partial function')
                 func = copy(func)
-                func[:] = tokens
+                func._items = [
+                    next(values) if not partial or x.symbol == '?' and not x else x
+                    for x in (func._items if partial else tokens)
+                ]
                 func.to_partial_function()
                 return func
 
